@@ -403,10 +403,35 @@ inductive GlobalUse
   | other                 -- anything else done with the name
   deriving DecidableEq, Repr
 
+/-- what a stretch of code does with the table behind a lock-shaped global -/
+inductive TableOp
+  | lookup   -- `get` / `contains_key` / `entry` / `iter` …: finds out whether a key is present
+  | insert   -- `insert` / `push` / `or_insert_with` / `extend` / `set` …: adds an entry
+  deriving DecidableEq, Repr
+
+/-- the code of one function from one acquisition of the global to the next one
+(or to the end of the function): how it was acquired, the table operations in
+source order -/
+structure GlobalSection where
+  use : GlobalUse
+  ops : List TableOp
+  deriving Repr
+
+/-- one function that touches a lock-shaped global: its sections in source order -/
+structure GlobalFn where
+  sections : List GlobalSection
+  deriving Repr
+
 structure StaticFact where
   kind : GlobalKind
   isMut : Bool            -- `static mut`
   uses : List GlobalUse   -- every occurrence of the name (lock-shaped statics only)
+  /-- every function with an occurrence of the name (lock-shaped statics only) -/
+  fns : List GlobalFn := []
+  /-- fields with interior mutability (`OnceLock`, `Mutex`, `Cell`, atomics …) INSIDE
+  the value the lock protects, crate structs of the declaring file inlined: state of
+  an entry that can change after the entry was inserted, without the table's lock -/
+  entryCells : Nat := 0
   deriving Repr
 
 structure GlobalFacts where
@@ -440,5 +465,50 @@ def StaticFact.disciplined (s : StaticFact) : Bool :=
         | none => false)
 
 def globalsDisciplined (f : GlobalFacts) : Bool := f.statics.all StaticFact.disciplined
+
+/-- where the Roto name of a registered type comes from when a Rust signature is
+turned into Roto types -/
+inductive NameSource
+  | ownList      -- the runtime's own list of registered types (`runtime.get_runtime_type`)
+  | foreign      -- anything else: the process-global registry entry, a cache
+  | structural   -- the arm builds the type from its parts, no name involved
+  deriving DecidableEq, Repr
+
+/-- the decision: every name comes from the runtime's own list (and some arm does
+resolve a name, so the fact is about something) -/
+def namesPerRuntime (l : List NameSource) : Bool := l.all (fun s => s != .foreign) && l.contains .ownList
+
+/-- a lookup happens before the first insert of a section -/
+def lookupBeforeInsert (ops : List TableOp) : Bool :=
+  (ops.takeWhile (fun o => o != .insert)).contains .lookup
+
+/-- `looked` = an EARLIER section of the function (the lock was released since)
+already looked a key up. A later section that inserts must look up again first
+(double-checked get-or-insert): what the earlier lookup found may be stale. -/
+def sectionsRecheck : Bool → List GlobalSection → Bool
+  | _, [] => true
+  | looked, s :: rest =>
+    (!(looked && s.ops.contains .insert) || lookupBeforeInsert s.ops)
+      && sectionsRecheck (looked || s.ops.contains .lookup) rest
+
+def GlobalFn.rechecks (f : GlobalFn) : Bool := sectionsRecheck false f.sections
+
+/-- the decision about get-or-insert tables: no function inserts on the strength
+of a lookup made under an earlier acquisition -/
+def globalsRecheck (f : GlobalFacts) : Bool := f.statics.all (fun s => s.fns.all GlobalFn.rechecks)
+
+/-- the decision that makes the inserting section of a get-or-insert ONE atomic
+step: every section that inserts was acquired in a mode that excludes everybody else -/
+def globalsInsertExclusive (f : GlobalFacts) : Bool :=
+  f.statics.all (fun s => s.fns.all (fun fn => fn.sections.all (fun sec =>
+    !(sec.ops.contains .insert) || (match sec.use.mode with
+      | some m => grantsExcl s.kind.lockKind m
+      | none => false))))
+
+/-- the decision about entries: what a process-global table hands out is frozen
+once inserted (no cell inside the protected value that a later registration or
+compilation could set): one runtime / compilation cannot leave a mark that
+another one reads -/
+def globalsEntriesFrozen (f : GlobalFacts) : Bool := f.statics.all (fun s => s.entryCells == 0)
 
 end RotoV.Conc.Share
